@@ -428,6 +428,9 @@ func (x *Exec) evalSpecCall(st *State, e *ast.CallExpr) *Value {
 		v := x.eval(st, e.Args[0])
 		t := x.astType(e.Args[1])
 		return x.unbox(st, v, t)
+	case "emptymap":
+		v := x.eval(st, e.Args[0])
+		return scalarV(boolT, x.mapIsEmpty(st, v.scalar()))
 	case "asref":
 		// asref(p): pointer as untyped ref (for quantifier comparisons)
 		v := x.eval(st, e.Args[0])
